@@ -39,7 +39,7 @@ def run_mc(chk: Check, cfg: str, invs, overrides, label, timeout=1500, workers=8
 def mismatch_sig(m, run):
     stmt_ops = sorted({s["op"] for t in run["prog"] for s in t})
     d = m["detail"] if isinstance(m["detail"], dict) else {"info": m["detail"]}
-    sig = {"clause": m["clause"], "ops": run["ops"], "stmt_ops": stmt_ops, "F": m["F"],
+    sig = {"clause": m["clause"], "ops": run["ops"], "stmt_ops": stmt_ops, "F": m["F"], "layout": m.get("layout"),
            "asserts": any(s["assert"] for t in run["prog"] for s in t)}
     for k in ("exp", "got", "exc"):
         if k in d:
